@@ -27,7 +27,7 @@ def run(repo="/repo", build=None, twin=False, rlimit=None, threads=16, extra_arg
         res["status"] = "gen-failed"
         return res
     meta = json.load(open(meta_path))
-    vcmd = ["verus", out_rs, "--output-json", "--time-expanded", "--error-format=json", "--multiple-errors", "20",
+    vcmd = ["verus", out_rs, "--output-json", "--time-expanded", "--error-format=json", "--multiple-errors", "1" if twin else "20",
             "--num-threads", str(threads)]
     if rlimit:
         vcmd += ["--rlimit", str(rlimit)]
